@@ -76,10 +76,14 @@ type vMemStream struct {
 	gateAt    int
 	gateDelay int
 	gateDone  bool
+	stall     bool // at the end of buf, Read blocks forever instead of reporting EOF
 }
 
 func (m *vMemStream) Read(p []byte) (int, error) {
 	if m.rpos >= len(m.buf) {
+		if m.stall {
+			<-make(chan struct{}) // a silent peer: the stream stays open and nothing more arrives
+		}
 		return 0, io.EOF
 	}
 	avail := m.buf[m.rpos:]
